@@ -18,6 +18,7 @@ use rand_chacha::ChaCha8Rng;
 use rand_core::SeedableRng;
 use serde_json::{json, Value};
 
+pub mod copyrec;
 pub mod csdump;
 pub mod family;
 pub mod recording;
